@@ -1431,6 +1431,7 @@ package ucfg
 //@ modifies tree(opts.opts)
 //@ ensures [scope !unproved] opts.opts.activeFields == old(opts.opts.activeFields)
 //@ ensures [interface_validated @C04] err == nil && t == chasedT(t) && rtKind(t) == 20 && rtNumMethod(t) == 0 ==> accepts(opts.validators, rvAny(r))
+//@ ensures [map_validated @C04] err == nil && !convTo(old(tConfigPtr), ptrTo(chasedT(t))) && rtKind(chasedT(t)) == 21 ==> recValidW(chasedP(r), opts.validators)
 //@ ensures [container_typed @C06] err == nil && !convTo(old(tConfigPtr), ptrTo(chasedT(t))) && (rtKind(chasedT(t)) == 21 || rtKind(chasedT(t)) == 23) ==> rvType(r) == t
 
 // reifyMergeValue: the scope clause is the summary reifyMap relies on (assumed: the function is a reflect-driven
@@ -2328,6 +2329,7 @@ package ucfg
 //@ rvwrites nothing
 //@ ensures [naming !unproved] r == pzOf(t, base, v)
 //@ ensures [same_type] t == base ==> r == v
+//@ ensures [pointee !unproved] chasedP(r) == chasedP(v)
 //@ ensures [target_type] t != base && rtKind(t) != 20 ==> rvType(r) == t
 
 // reifyPrimitive: a configured (non-null) value comes back with the type of the target, pointers included
